@@ -576,7 +576,7 @@ def _known_inverted_attribute_reified(trace, v):
 def _known_dereify_after_canonicalize(trace, v):
     o = trace.get('options', {})
     return (v.sig == 'normal_form:output-not-a-fixed-point' and o.get('canonicalize_roles')
-            and o.get('dereify_edges') and v.detail.get('first_has_normalisable_role') is True)
+            and v.detail.get('first_has_normalisable_role') is True)
 
 
 KNOWN = {'multifile_separator': _known_multifile_separator,
